@@ -1,6 +1,7 @@
 //! C10 — without a crash (and with all fault probabilities 0) the simulated
 //! filesystem behaves like a plain POSIX file tree.  DESIGN.md §6 C10.
-//! FsDirect driver (`drivers::fsdirect`), reference model `models::posixfs`.
+//! FsDirect driver (`drivers::fsdirect`), op language + interpreters + generators
+//! `drivers::fshistory` (shared with C07), reference model `models::posixfs`.
 //!
 //! A scenario is a history of <= ~40 ops over a 13-path universe on two
 //! independent hosts (two `Fs` instances, identical path names).  The
@@ -18,7 +19,7 @@
 //! Sound-first restriction: a handle is only used while its path still names
 //! the inode it was opened on.
 //!
-//! Known findings (F-C10-1 .. F-C10-13, see `probes()` and
+//! Known findings (F-C10-1 .. F-C10-14, see `probes()` and
 //! known_findings.json) are handled by *avoidance* (the op is not executed when
 //! the model state says it would trigger the defect) or *taint*; both are
 //! counted with `out.exclude`.  Two kinds of taint:
@@ -30,6 +31,12 @@
 //!   it) is executed but not compared and taints what else it touches, and
 //!   files whose not-yet-durable rename chain contains a name in the region are
 //!   tainted with it.
+//!
+//! The tolerance is status-driven: a rule is active only while its finding is
+//! recorded with status "known" in known_findings.json (`is_known`).  Once an
+//! entry is flipped to "fixed" the random tier executes and asserts the
+//! formerly avoided / tainted situations again and reports a returning defect
+//! with its generic signature; the probe replays then have to pass.
 //!
 //! The rules are phrased over *history facts* (`Facts` per file inode,
 //! `NameFacts` per name: "data not file-synced since ...", "renamed and no
@@ -46,9 +53,14 @@
 //! the operating system's filesystem instead of turmoil-fs to validate the
 //! reference model, `C10_TRACE=1` prints the concretised ops of a replay.
 
-use crate::drivers::fsdirect::{Entered, Fe, Handle, Host, OpenFlags, PENDED};
-use crate::engine::{pick, replay_as, Ctx, Outcome, Tier};
-use crate::models::posixfs::{self as pm, is_prefix, parent_of, Flags, Ino, MErr, MHandle, Stat, Tree};
+use crate::drivers::fsdirect::{Fe, Handle, Host, OpenFlags, PENDED};
+use crate::drivers::fshistory::{
+    self, describe, exec_model, exec_real, mflags, payload, pth, reconcile_open, resolve_slot, scan_model, scan_real, step_strategy, Last, Res,
+    Seen,
+};
+pub use crate::drivers::fshistory::{Op, Step, Whence, NSLOTS, PATHS};
+use crate::engine::{replay_as, Ctx, Outcome, Tier};
+use crate::models::posixfs::{self as pm, is_prefix, parent_of, Ino, MErr, MHandle, Tree};
 use proptest::prelude::*;
 use serde::{Deserialize, Serialize};
 use serde_json::Value;
@@ -62,13 +74,6 @@ pub const PROP: super::Prop = super::Prop {
     check,
     replay,
 };
-
-/// The path universe (ancestor-closed). Any path may become a file or a
-/// directory.
-pub const PATHS: [&str; 13] = [
-    "/", "/d0", "/d1", "/d0/s", "/f0", "/f1", "/d0/a", "/d0/b", "/d1/a", "/d1/b", "/d0/s/a", "/d0/s/b", "/d2",
-];
-const NSLOTS: usize = 4;
 
 // ---- known-finding switches (bit numbers in Scenario::strict) -------------
 pub const K_RENAME_DATA: u32 = 1 << 0; // F-C10-1
@@ -84,111 +89,49 @@ pub const K_XDIR_SYNC: u32 = 1 << 9; // F-C10-10 sync_dir(dest dir) after cross-
 pub const K_DIR_RECREATE_SYNC: u32 = 1 << 10; // F-C10-11 sync_dir(d) of a re-created directory
 pub const K_RMDIR_RENAMED_IN: u32 = 1 << 11; // F-C10-12 remove_dir ignores children that arrived by rename
 pub const K_APPEND_ZERO: u32 = 1 << 12; // F-C10-13 zero-length write on an append handle moves the cursor
+pub const K_DIR_INTO_SELF: u32 = 1 << 13; // F-C10-14 rename of a directory into its own subtree succeeds
 pub const K_ALL: u32 = u32::MAX;
 
-#[derive(Clone, Copy, Debug, Serialize, Deserialize, PartialEq, Eq)]
-pub enum Whence {
-    Start,
-    Cur,
-    End,
+/// Finding id a rule bit belongs to.
+fn finding_of(bit: u32) -> &'static str {
+    match bit {
+        K_RENAME_DATA => "F-C10-1",
+        K_RECREATE => "F-C10-2",
+        K_SETLEN_ORDER => "F-C10-3",
+        K_DIR_RENAME => "F-C10-4",
+        K_ERR_KIND => "F-C10-5",
+        K_OPEN_FLAGS => "F-C10-6",
+        K_TYPE_CONFUSION => "F-C10-7",
+        K_RENAME_SELF => "F-C10-8",
+        K_URING_MODE => "F-C10-9",
+        K_XDIR_SYNC => "F-C10-10",
+        K_DIR_RECREATE_SYNC => "F-C10-11",
+        K_RMDIR_RENAMED_IN => "F-C10-12",
+        K_APPEND_ZERO => "F-C10-13",
+        K_DIR_INTO_SELF => "F-C10-14",
+        _ => "",
+    }
 }
 
-#[derive(Clone, Debug, Serialize, Deserialize)]
-pub enum Op {
-    Open { slot: u8, path: u8, fe: Fe, fl: OpenFlags },
-    Close { slot: u8 },
-    WriteAt { slot: u8, off: u8, len: u8, fe: Fe },
-    ReadAt { slot: u8, off: u8, len: u8, fe: Fe },
-    Write { slot: u8, len: u8, fe: Fe },
-    Read { slot: u8, len: u8, fe: Fe },
-    Seek { slot: u8, whence: Whence, off: i8, fe: Fe },
-    SetLen { slot: u8, len: u8, fe: Fe },
-    HandleLen { slot: u8, fe: Fe },
-    SyncAll { slot: u8, fe: Fe },
-    SyncData { slot: u8, fe: Fe },
-    SyncDir { path: u8, fe: Fe },
-    Rename { from: u8, to: u8, fe: Fe },
-    RemoveFile { path: u8, fe: Fe },
-    CreateDir { path: u8, fe: Fe },
-    CreateDirAll { path: u8, fe: Fe },
-    RemoveDir { path: u8, fe: Fe },
-    RemoveDirAll { path: u8, fe: Fe },
-    ReadDir { path: u8, fe: Fe },
-    Metadata { path: u8, fe: Fe },
-    Exists { path: u8, fe: Fe },
-    ReadFile { path: u8, fe: Fe },
-    WriteFile { path: u8, len: u8, fe: Fe },
-    Advance { ms: u16 },
-}
-
-impl Op {
-    fn name(&self) -> &'static str {
-        match self {
-            Op::Open { .. } => "open",
-            Op::Close { .. } => "close",
-            Op::WriteAt { .. } => "write_at",
-            Op::ReadAt { .. } => "read_at",
-            Op::Write { .. } => "write",
-            Op::Read { .. } => "read",
-            Op::Seek { .. } => "seek",
-            Op::SetLen { .. } => "set_len",
-            Op::HandleLen { .. } => "file_metadata",
-            Op::SyncAll { .. } => "sync_all",
-            Op::SyncData { .. } => "sync_data",
-            Op::SyncDir { .. } => "sync_dir",
-            Op::Rename { .. } => "rename",
-            Op::RemoveFile { .. } => "remove_file",
-            Op::CreateDir { .. } => "create_dir",
-            Op::CreateDirAll { .. } => "create_dir_all",
-            Op::RemoveDir { .. } => "remove_dir",
-            Op::RemoveDirAll { .. } => "remove_dir_all",
-            Op::ReadDir { .. } => "read_dir",
-            Op::Metadata { .. } => "metadata",
-            Op::Exists { .. } => "exists",
-            Op::ReadFile { .. } => "read",
-            Op::WriteFile { .. } => "fs_write",
-            Op::Advance { .. } => "advance",
-        }
-    }
-    fn is_sync_or_clock(&self) -> bool {
-        matches!(
-            self,
-            Op::SyncAll { .. } | Op::SyncData { .. } | Op::SyncDir { .. } | Op::Advance { .. }
-        )
-    }
-    fn fe(&self) -> Option<Fe> {
-        Some(match self {
-            Op::Open { fe, .. }
-            | Op::WriteAt { fe, .. }
-            | Op::ReadAt { fe, .. }
-            | Op::Write { fe, .. }
-            | Op::Read { fe, .. }
-            | Op::Seek { fe, .. }
-            | Op::SetLen { fe, .. }
-            | Op::HandleLen { fe, .. }
-            | Op::SyncAll { fe, .. }
-            | Op::SyncData { fe, .. }
-            | Op::SyncDir { fe, .. }
-            | Op::Rename { fe, .. }
-            | Op::RemoveFile { fe, .. }
-            | Op::CreateDir { fe, .. }
-            | Op::CreateDirAll { fe, .. }
-            | Op::RemoveDir { fe, .. }
-            | Op::RemoveDirAll { fe, .. }
-            | Op::ReadDir { fe, .. }
-            | Op::Metadata { fe, .. }
-            | Op::Exists { fe, .. }
-            | Op::ReadFile { fe, .. }
-            | Op::WriteFile { fe, .. } => *fe,
-            Op::Close { .. } | Op::Advance { .. } => return None,
+/// Ids of the C10 findings whose entry in known_findings.json (under
+/// VERIF_ROOT, default /verif) has status "known".  Only those are tolerated:
+/// every avoid / taint / excluded comparison that exists because of finding
+/// F-C10-n is active only while `is_known("F-C10-n")`.  An entry with status
+/// "fixed" (or no entry) suppresses nothing: the random tier asserts the full
+/// clause again and a returning defect is reported with its generic
+/// (non-probe) signature; the probe replays stay as regression tests.
+pub fn is_known(id: &str) -> bool {
+    static KNOWN: std::sync::OnceLock<Vec<String>> = std::sync::OnceLock::new();
+    KNOWN
+        .get_or_init(|| {
+            crate::engine::load_findings()
+                .into_iter()
+                .filter(|f| f.property == "C10" && f.status == "known")
+                .map(|f| f.id)
+                .collect()
         })
-    }
-}
-
-#[derive(Clone, Debug, Serialize, Deserialize)]
-pub struct Step {
-    pub host: u8,
-    pub op: Op,
+        .iter()
+        .any(|k| k == id)
 }
 
 #[derive(Clone, Debug, Serialize, Deserialize)]
@@ -207,77 +150,8 @@ pub struct Scenario {
 // ---------------------------------------------------------------------------
 // results
 
-#[derive(Clone, Debug, PartialEq, Eq)]
-enum Res {
-    Unit,
-    Count(usize),
-    Data(Vec<u8>),
-    Pos(u64),
-    Len(u64),
-    Names(Vec<String>),
-    Stat(Stat),
-    Bool(bool),
-}
-
 fn kind_name(k: ErrorKind) -> String {
     format!("{k:?}")
-}
-
-/// What a scan sees for one path.
-#[derive(Clone, Debug, PartialEq, Eq)]
-enum Seen {
-    Absent,
-    File { len: u64, content: Option<Vec<u8>> },
-    Dir { entries: Option<Vec<String>> },
-    /// something inconsistent (both/neither kind bits, read failed, ...)
-    Odd(String),
-}
-
-fn scan_real(e: &mut Entered<'_>) -> Vec<(bool, Seen)> {
-    PATHS
-        .iter()
-        .map(|p| {
-            let ex = e.exists(Fe::Std, p).unwrap_or(false);
-            let seen = match e.metadata(Fe::Std, p) {
-                Err(_) => Seen::Absent,
-                Ok((true, false, len)) => match e.read_file(Fe::Std, p) {
-                    Ok(c) => Seen::File { len, content: Some(c) },
-                    Err(er) => Seen::Odd(format!("metadata says file len {len} but read failed: {er}")),
-                },
-                Ok((false, true, _)) => match e.read_dir(Fe::Std, p) {
-                    Ok(n) => Seen::Dir { entries: Some(n) },
-                    Err(er) => Seen::Odd(format!("metadata says dir but read_dir failed: {er}")),
-                },
-                Ok((f, d, l)) => Seen::Odd(format!("metadata is_file={f} is_dir={d} len={l}")),
-            };
-            (ex, seen)
-        })
-        .collect()
-}
-
-fn scan_model(t: &Tree) -> Vec<(bool, Seen)> {
-    PATHS
-        .iter()
-        .map(|p| match t.stat(p) {
-            Err(_) => (false, Seen::Absent),
-            Ok(Stat::File(len)) => {
-                let i = t.lookup(p).unwrap();
-                (
-                    true,
-                    Seen::File {
-                        len,
-                        content: Some(t.file(i).clone()),
-                    },
-                )
-            }
-            Ok(Stat::Dir) => (
-                true,
-                Seen::Dir {
-                    entries: Some(t.readdir(p).unwrap()),
-                },
-            ),
-        })
-        .collect()
 }
 
 // ---------------------------------------------------------------------------
@@ -330,22 +204,13 @@ struct NameFacts {
     removal_pending: bool,
 }
 
-/// Side information about the op just executed on the model.
-#[derive(Clone, Debug, Default)]
-struct Last {
-    ino: Option<Ino>,
-    created: bool,
-    old_len: u64,
-    new_len: u64,
-    /// write offset (for hole detection)
-    off: u64,
-    replaced: Option<Ino>,
-}
-
 struct HostState {
     real: Host,
     model: Tree,
-    handles: Vec<Option<(Handle, MHandle)>>,
+    /// real handle table and the model's mirror of it (a slot is occupied on
+    /// both sides or on neither)
+    rh: Vec<Option<Handle>>,
+    mh: Vec<Option<MHandle>>,
     /// inodes whose content/len is no longer compared, with the finding id
     data_taint: BTreeMap<Ino, &'static str>,
     /// path regions (prefix semantics) where nothing is compared any more
@@ -374,7 +239,8 @@ impl HostState {
         HostState {
             real,
             model: Tree::new(),
-            handles: (0..NSLOTS).map(|_| None).collect(),
+            rh: (0..NSLOTS).map(|_| None).collect(),
+            mh: (0..NSLOTS).map(|_| None).collect(),
             data_taint: BTreeMap::new(),
             region_taint: BTreeMap::new(),
             facts: BTreeMap::new(),
@@ -422,32 +288,8 @@ struct Run<'a> {
     pre_inos: BTreeMap<String, Ino>,
 }
 
-fn payload(w: u32, len: usize) -> Vec<u8> {
-    (0..len)
-        .map(|k| {
-            let b = ((w as usize * 13 + k + 1) & 0xff) as u8;
-            match b {
-                0 => 0xff,
-                0xEE => 0xEF,
-                b => b,
-            }
-        })
-        .collect()
-}
-
 fn hex(d: &[u8]) -> String {
     d.iter().map(|b| format!("{b:02x}")).collect::<Vec<_>>().join("")
-}
-
-fn mflags(f: OpenFlags) -> Flags {
-    Flags {
-        read: f.read,
-        write: f.write,
-        append: f.append,
-        truncate: f.truncate,
-        create: f.create,
-        create_new: f.create_new,
-    }
 }
 
 /// Known error-kind mismatches (F-C10-5): (op, model situation, kind turmoil returns).
@@ -483,8 +325,10 @@ const KNOWN_KINDS: &[(&str, &str, &str)] = &[
 ];
 
 impl<'a> Run<'a> {
+    /// Is the avoid/taint rule `bit` active?  Only while the scenario does
+    /// not switch it off *and* its finding is still recorded as "known".
     fn on(&self, bit: u32) -> bool {
-        self.sc.strict & bit == 0
+        self.sc.strict & bit == 0 && is_known(finding_of(bit))
     }
 
     fn fail(&mut self, sig: String, detail: String) {
@@ -807,55 +651,8 @@ impl<'a> Run<'a> {
     // ---- one step ------------------------------------------------------------
 
     /// Returns false if the op was not executed (skipped / avoided).
-    /// Path selectors >= 13 are resolved against the model state: k-th
-    /// existing file / existing directory / free name under an existing
-    /// directory (falls back to a fixed path if there is none).
     fn concretize(&self, h: usize, op: &Op) -> Op {
-        let m = &self.hosts[h].model;
-        let sel = |v: u8| -> u8 {
-            if (v as usize) < PATHS.len() {
-                return v;
-            }
-            let k = v as usize - PATHS.len();
-            let (kind, idx) = (k % 3, k / 3);
-            let cands: Vec<usize> = (1..PATHS.len())
-                .filter(|i| {
-                    let q = PATHS[*i];
-                    match (kind, m.lookup(q)) {
-                        (0, Some(ino)) => !m.is_dir(ino),
-                        (1, Some(ino)) => m.is_dir(ino),
-                        (2, None) => m.lookup(&parent_of(q)).map(|pi| m.is_dir(pi)).unwrap_or(false),
-                        _ => false,
-                    }
-                })
-                .collect();
-            if cands.is_empty() {
-                (idx % PATHS.len()) as u8
-            } else {
-                cands[idx % cands.len()] as u8
-            }
-        };
-        let mut op = op.clone();
-        match &mut op {
-            Op::Open { path, .. }
-            | Op::SyncDir { path, .. }
-            | Op::RemoveFile { path, .. }
-            | Op::CreateDir { path, .. }
-            | Op::CreateDirAll { path, .. }
-            | Op::RemoveDir { path, .. }
-            | Op::RemoveDirAll { path, .. }
-            | Op::ReadDir { path, .. }
-            | Op::Metadata { path, .. }
-            | Op::Exists { path, .. }
-            | Op::ReadFile { path, .. }
-            | Op::WriteFile { path, .. } => *path = sel(*path),
-            Op::Rename { from, to, .. } => {
-                *from = sel(*from);
-                *to = sel(*to);
-            }
-            _ => {}
-        }
-        op
+        fshistory::concretize(&self.hosts[h].model, op)
     }
 
     fn step(&mut self, idx: usize, step: &Step) -> bool {
@@ -870,41 +667,16 @@ impl<'a> Run<'a> {
         let ctx = format!("op #{idx} host {h} {:?}", step.op);
         let opn = step.op.name();
 
-        // handle ops: resolve slot, apply the sound-first restriction
         // handle ops address the k-th *usable* handle (usable = its path still
-        // names the inode it was opened on), so that generated slot numbers
-        // rarely hit an empty slot
-        let usable: Vec<usize> = (0..NSLOTS)
-            .filter(|s| {
-                self.hosts[h].handles[*s]
-                    .as_ref()
-                    .map(|(_, mh)| self.hosts[h].model.lookup(&mh.path) == Some(mh.ino))
-                    .unwrap_or(false)
-            })
-            .collect();
-        let slot_of = |s: u8| -> usize {
-            if usable.is_empty() {
-                (s as usize) % NSLOTS
-            } else {
-                usable[(s as usize) % usable.len()]
-            }
-        };
-        let handle_slot = match &step.op {
-            Op::WriteAt { slot, .. }
-            | Op::ReadAt { slot, .. }
-            | Op::Write { slot, .. }
-            | Op::Read { slot, .. }
-            | Op::Seek { slot, .. }
-            | Op::SetLen { slot, .. }
-            | Op::HandleLen { slot, .. }
-            | Op::SyncAll { slot, .. }
-            | Op::SyncData { slot, .. } => Some(slot_of(*slot)),
-            _ => None,
-        };
+        // names the inode it was opened on: the sound-first restriction)
+        let handle_slot = step
+            .op
+            .handle_slot()
+            .map(|raw| resolve_slot(&self.hosts[h].model, &self.hosts[h].mh, raw));
         self.cur_slot = handle_slot;
         if let Some(s) = handle_slot {
             let hs = &self.hosts[h];
-            let Some((_, mh)) = &hs.handles[s] else {
+            let Some(mh) = &hs.mh[s] else {
                 self.out.count("skipped: empty handle slot", 1);
                 return false;
             };
@@ -941,7 +713,7 @@ impl<'a> Run<'a> {
             }
             Op::Rename { from, to, .. } => vec![pth(*from).to_string(), pth(*to).to_string()],
             _ => match handle_slot {
-                Some(s) => vec![self.hosts[h].handles[s].as_ref().unwrap().1.path.clone()],
+                Some(s) => vec![self.hosts[h].mh[s].as_ref().unwrap().path.clone()],
                 None => vec![],
             },
         };
@@ -996,7 +768,7 @@ impl<'a> Run<'a> {
         } else {
             let data_tainted = handle_slot
                 .map(|s| {
-                    let ino = self.hosts[h].handles[s].as_ref().unwrap().1.ino;
+                    let ino = self.hosts[h].mh[s].as_ref().unwrap().ino;
                     self.hosts[h].data_taint.contains_key(&ino)
                 })
                 .unwrap_or(false)
@@ -1009,7 +781,7 @@ impl<'a> Run<'a> {
                     _ => false,
                 };
             let append = handle_slot
-                .map(|s| self.hosts[h].handles[s].as_ref().unwrap().1.append)
+                .map(|s| self.hosts[h].mh[s].as_ref().unwrap().append)
                 .unwrap_or(false);
             // ops whose result depends on the (unknown) content / length
             let depends = match &step.op {
@@ -1054,7 +826,7 @@ impl<'a> Run<'a> {
 
     fn resync_cursor(&mut self, h: usize, s: usize) {
         let hs = &mut self.hosts[h];
-        if let Some((rh, mh)) = hs.handles[s].as_mut() {
+        if let (Some(rh), Some(mh)) = (hs.rh[s].as_mut(), hs.mh[s].as_mut()) {
             let pos = mh.cursor.min(64);
             mh.cursor = pos;
             let _ = hs.real.enter(|e| e.seek(Fe::Std, rh, SeekFrom::Start(pos)));
@@ -1099,8 +871,16 @@ impl<'a> Run<'a> {
                 if f == t && m.lookup(f).is_some() && self.on(K_RENAME_SELF) {
                     return Some(("F-C10-8", "rename(p, p)"));
                 }
-                if is_dir(f) && self.on(K_DIR_RENAME) {
-                    return Some(("F-C10-4", "rename of a directory"));
+                if is_dir(f) {
+                    if f != t && is_prefix(f, t) {
+                        // a POSIX tree refuses this (EINVAL) and changes nothing, so
+                        // it can be executed and compared whatever F-C10-4's status
+                        if self.on(K_DIR_INTO_SELF) {
+                            return Some(("F-C10-14", "rename of a directory into its own subtree"));
+                        }
+                    } else if self.on(K_DIR_RENAME) {
+                        return Some(("F-C10-4", "rename of a directory"));
+                    }
                 }
             }
             Op::RemoveDir { path, .. } | Op::RemoveDirAll { path, .. } => {
@@ -1123,7 +903,7 @@ impl<'a> Run<'a> {
                 }
             }
             Op::WriteAt { fe, .. } => {
-                let (_, mh) = hs.handles[self.cur_slot.unwrap()].as_ref().unwrap();
+                let mh = hs.mh[self.cur_slot.unwrap()].as_ref().unwrap();
                 if mh.append {
                     // Linux pwrite() on O_APPEND ignores the offset, POSIX says it must not
                     return Some(("unspecified", "write_at on an append-mode handle"));
@@ -1133,13 +913,13 @@ impl<'a> Run<'a> {
                 }
             }
             Op::Write { len: 0, .. } => {
-                let (_, mh) = hs.handles[self.cur_slot.unwrap()].as_ref().unwrap();
+                let mh = hs.mh[self.cur_slot.unwrap()].as_ref().unwrap();
                 if mh.append && mh.writable && self.on(K_APPEND_ZERO) {
                     return Some(("F-C10-13", "zero-length write on an append-mode handle"));
                 }
             }
             Op::ReadAt { fe, .. } => {
-                let (_, mh) = hs.handles[self.cur_slot.unwrap()].as_ref().unwrap();
+                let mh = hs.mh[self.cur_slot.unwrap()].as_ref().unwrap();
                 if *fe == Fe::Uring && !mh.readable && self.on(K_URING_MODE) {
                     return Some(("F-C10-9", "io_uring read through a handle not opened for reading"));
                 }
@@ -1151,7 +931,6 @@ impl<'a> Run<'a> {
 
     /// Execute one op on the real crate and on the model.
     fn exec(&mut self, h: usize, step: &Step) -> (io::Result<Res>, Result<Res, MErr>) {
-        let slot_of = |s: u8| (s as usize) % NSLOTS;
         self.last = Last::default();
         let cur = self.cur_slot.unwrap_or(0);
         self.pre_existing.clear();
@@ -1183,319 +962,27 @@ impl<'a> Run<'a> {
             }
         }
         let hs = &mut self.hosts[h];
-        match &step.op {
-            Op::Open { slot, path, fe, fl } => {
-                let s = slot_of(*slot);
-                let p = pth(*path);
-                if let Some((rh, _)) = hs.handles[s].take() {
-                    hs.real.enter(|e| e.close(rh));
-                }
-                let r = hs.real.enter(|e| e.open(*fe, p, *fl));
-                let old_len = hs
-                    .model
-                    .lookup(p)
-                    .filter(|i| !hs.model.is_dir(*i))
-                    .map(|i| hs.model.file(i).len() as u64)
-                    .unwrap_or(0);
-                let m = hs.model.open(p, mflags(*fl));
-                if let Ok(o) = &m {
-                    self.last = Last {
-                        ino: Some(o.ino),
-                        created: o.created,
-                        old_len,
-                        new_len: hs.model.file(o.ino).len() as u64,
-                        ..Default::default()
-                    };
-                }
-                let res_r = r.as_ref().map(|_| Res::Unit).map_err(clone_err);
-                let res_m = m.as_ref().map(|_| Res::Unit).map_err(|e| e.clone());
-                match (r, &m) {
-                    (Ok(rh), Ok(o)) => {
-                        hs.handles[s] = Some((rh, Tree::handle(p, o.ino, mflags(*fl))));
-                    }
-                    (Ok(rh), Err(_)) => hs.real.enter(|e| e.close(rh)),
-                    _ => {}
-                }
-                (res_r, res_m)
-            }
-            Op::Close { slot } => {
-                let s = slot_of(*slot);
-                if let Some((rh, _)) = hs.handles[s].take() {
-                    hs.real.enter(|e| e.close(rh));
-                }
-                (Ok(Res::Unit), Ok(Res::Unit))
-            }
-            Op::WriteAt { off, len, fe, .. } => {
-                let (rh, mh) = hs.handles[cur].as_mut().unwrap();
+        let data = match step.op.write_len() {
+            Some(n) => {
                 hs.writes += 1;
-                let data = payload(hs.writes, *len as usize);
-                let r = hs.real.enter(|e| e.write_at(*fe, rh, &data, *off as u64));
-                let m = if mh.writable {
-                    let old_len = hs.model.file(mh.ino).len() as u64;
-                    let n = hs.model.pwrite(mh.ino, *off as u64, &data);
-                    self.last = Last {
-                        ino: Some(mh.ino),
-                        old_len,
-                        new_len: hs.model.file(mh.ino).len() as u64,
-                        off: *off as u64,
-                        ..Default::default()
-                    };
-                    Ok(Res::Count(n))
-                } else {
-                    Err(MErr {
-                        situation: "handle-not-writable",
-                        kind: None,
-                    })
-                };
-                (r.map(Res::Count), m)
+                payload(hs.writes, n)
             }
-            Op::ReadAt { off, len, fe, .. } => {
-                let (rh, mh) = hs.handles[cur].as_mut().unwrap();
-                let r = hs.real.enter(|e| e.read_at(*fe, rh, *len as usize, *off as u64));
-                let m = if mh.readable {
-                    Ok(Res::Data(hs.model.pread(mh.ino, *off as u64, *len as usize)))
-                } else {
-                    Err(MErr {
-                        situation: "handle-not-readable",
-                        kind: None,
-                    })
-                };
-                (r.map(Res::Data), m)
-            }
-            Op::Write { len, fe, .. } => {
-                let (rh, mh) = hs.handles[cur].as_mut().unwrap();
-                hs.writes += 1;
-                let data = payload(hs.writes, *len as usize);
-                let r = hs.real.enter(|e| e.write(*fe, rh, &data));
-                let m = if mh.writable {
-                    let off = if mh.append {
-                        hs.model.file(mh.ino).len() as u64
-                    } else {
-                        mh.cursor
-                    };
-                    let old_len = hs.model.file(mh.ino).len() as u64;
-                    let n = hs.model.pwrite(mh.ino, off, &data);
-                    self.last = Last {
-                        ino: Some(mh.ino),
-                        old_len,
-                        new_len: hs.model.file(mh.ino).len() as u64,
-                        off,
-                        ..Default::default()
-                    };
-                    // POSIX: a zero-length write has no effect (cursor included;
-                    // with O_APPEND the offset is only moved by an actual write)
-                    if n > 0 {
-                        mh.cursor = off + n as u64;
-                    }
-                    Ok(Res::Count(n))
-                } else {
-                    Err(MErr {
-                        situation: "handle-not-writable",
-                        kind: None,
-                    })
-                };
-                (r.map(Res::Count), m)
-            }
-            Op::Read { len, fe, .. } => {
-                let (rh, mh) = hs.handles[cur].as_mut().unwrap();
-                let r = hs.real.enter(|e| e.read(*fe, rh, *len as usize));
-                let m = if mh.readable {
-                    let d = hs.model.pread(mh.ino, mh.cursor, *len as usize);
-                    mh.cursor += d.len() as u64;
-                    Ok(Res::Data(d))
-                } else {
-                    Err(MErr {
-                        situation: "handle-not-readable",
-                        kind: None,
-                    })
-                };
-                (r.map(Res::Data), m)
-            }
-            Op::Seek { whence, off, fe, .. } => {
-                let (rh, mh) = hs.handles[cur].as_mut().unwrap();
-                let pos = match whence {
-                    Whence::Start => SeekFrom::Start(off.unsigned_abs() as u64),
-                    Whence::Cur => SeekFrom::Current(*off as i64),
-                    Whence::End => SeekFrom::End(*off as i64),
-                };
-                let r = hs.real.enter(|e| e.seek(*fe, rh, pos));
-                let target: i64 = match whence {
-                    Whence::Start => off.unsigned_abs() as i64,
-                    Whence::Cur => mh.cursor as i64 + *off as i64,
-                    Whence::End => hs.model.file(mh.ino).len() as i64 + *off as i64,
-                };
-                let m = if target < 0 {
-                    Err(MErr {
-                        situation: "seek-before-start",
-                        kind: pm::EINVAL,
-                    })
-                } else {
-                    mh.cursor = target as u64;
-                    Ok(Res::Pos(target as u64))
-                };
-                (r.map(Res::Pos), m)
-            }
-            Op::SetLen { len, fe, .. } => {
-                let (rh, mh) = hs.handles[cur].as_mut().unwrap();
-                let r = hs.real.enter(|e| e.set_len(*fe, rh, *len as u64));
-                let m = if mh.writable {
-                    let old_len = hs.model.file(mh.ino).len() as u64;
-                    hs.model.truncate(mh.ino, *len as u64);
-                    self.last = Last {
-                        ino: Some(mh.ino),
-                        old_len,
-                        new_len: *len as u64,
-                        off: old_len,
-                        ..Default::default()
-                    };
-                    Ok(Res::Unit)
-                } else {
-                    Err(MErr {
-                        situation: "handle-not-writable",
-                        kind: None,
-                    })
-                };
-                (r.map(|_| Res::Unit), m)
-            }
-            Op::HandleLen { fe, .. } => {
-                let (rh, mh) = hs.handles[cur].as_mut().unwrap();
-                let r = hs.real.enter(|e| e.handle_len(*fe, rh));
-                (r.map(Res::Len), Ok(Res::Len(hs.model.file(mh.ino).len() as u64)))
-            }
-            Op::SyncAll { fe, .. } => {
-                let (rh, _) = hs.handles[cur].as_mut().unwrap();
-                let r = hs.real.enter(|e| e.sync_all(*fe, rh));
-                (r.map(|_| Res::Unit), Ok(Res::Unit))
-            }
-            Op::SyncData { fe, .. } => {
-                let (rh, _) = hs.handles[cur].as_mut().unwrap();
-                let r = hs.real.enter(|e| e.sync_data(*fe, rh));
-                (r.map(|_| Res::Unit), Ok(Res::Unit))
-            }
-            Op::SyncDir { path, fe } => {
-                let p = pth(*path);
-                let r = hs.real.enter(|e| e.sync_dir(*fe, p));
-                // turmoil-specific call (= open(dir) + fsync): Ok on a directory,
-                // error otherwise; no std-documented kind
-                let m = match hs.model.stat(p) {
-                    Ok(Stat::Dir) => Ok(Res::Unit),
-                    Ok(Stat::File(_)) => Err(MErr {
-                        situation: "not-a-directory",
-                        kind: None,
-                    }),
-                    Err(e) => Err(MErr {
-                        situation: e.situation,
-                        kind: None,
-                    }),
-                };
-                (r.map(|_| Res::Unit), m)
-            }
-            Op::Rename { from, to, fe } => {
-                let r = hs.real.enter(|e| e.rename(*fe, pth(*from), pth(*to)));
-                let m = hs.model.rename(pth(*from), pth(*to));
-                if let Ok(rep) = &m {
-                    self.last.replaced = *rep;
-                }
-                (r.map(|_| Res::Unit), m.map(|_| Res::Unit))
-            }
-            Op::RemoveFile { path, fe } => {
-                let r = hs.real.enter(|e| e.remove_file(*fe, pth(*path)));
-                let m = hs.model.unlink(pth(*path));
-                (r.map(|_| Res::Unit), m.map(|_| Res::Unit))
-            }
-            Op::CreateDir { path, fe } => {
-                let r = hs.real.enter(|e| e.create_dir(*fe, pth(*path)));
-                let m = hs.model.mkdir(pth(*path));
-                (r.map(|_| Res::Unit), m.map(|_| Res::Unit))
-            }
-            Op::CreateDirAll { path, fe } => {
-                let r = hs.real.enter(|e| e.create_dir_all(*fe, pth(*path)));
-                let m = hs.model.mkdir_all(pth(*path));
-                (r.map(|_| Res::Unit), m.map(|_| Res::Unit))
-            }
-            Op::RemoveDir { path, fe } => {
-                let r = hs.real.enter(|e| e.remove_dir(*fe, pth(*path)));
-                let m = hs.model.rmdir(pth(*path));
-                (r.map(|_| Res::Unit), m.map(|_| Res::Unit))
-            }
-            Op::RemoveDirAll { path, fe } => {
-                let r = hs.real.enter(|e| e.remove_dir_all(*fe, pth(*path)));
-                let m = hs.model.rmdir_all(pth(*path));
-                (r.map(|_| Res::Unit), m.map(|_| Res::Unit))
-            }
-            Op::ReadDir { path, fe } => {
-                let r = hs.real.enter(|e| e.read_dir(*fe, pth(*path)));
-                let m = hs.model.readdir(pth(*path));
-                // entries that are tainted themselves are not compared
-                let filt = |v: Vec<String>, hs: &HostState| -> Vec<String> {
-                    v.into_iter().filter(|q| !hs.self_tainted(q)).collect()
-                };
-                let r = r.map(|v| Res::Names(filt(v, hs)));
-                let m = m.map(|v| Res::Names(filt(v, hs)));
-                (r, m)
-            }
-            Op::Metadata { path, fe } => {
-                let r = hs.real.enter(|e| e.metadata(*fe, pth(*path)));
-                let m = hs.model.stat(pth(*path));
-                let r = r.map(|(f, d, len)| match (f, d) {
-                    (true, false) => Res::Stat(Stat::File(len)),
-                    (false, true) => Res::Stat(Stat::Dir),
-                    _ => Res::Names(vec![format!("inconsistent metadata is_file={f} is_dir={d}")]),
-                });
-                (r, m.map(Res::Stat))
-            }
-            Op::Exists { path, fe } => {
-                let r = hs.real.enter(|e| e.exists(*fe, pth(*path)));
-                (r.map(Res::Bool), Ok(Res::Bool(hs.model.lookup(pth(*path)).is_some())))
-            }
-            Op::ReadFile { path, fe } => {
-                let p = pth(*path);
-                let r = hs.real.enter(|e| e.read_file(*fe, p));
-                let m = match hs.model.resolve(p) {
-                    Err(e) => Err(e),
-                    Ok(i) if hs.model.is_dir(i) => Err(MErr {
-                        situation: "read-on-directory",
-                        kind: None,
-                    }),
-                    Ok(i) => Ok(Res::Data(hs.model.file(i).clone())),
-                };
-                (r.map(Res::Data), m)
-            }
-            Op::WriteFile { path, len, fe } => {
-                let p = pth(*path);
-                hs.writes += 1;
-                let data = payload(hs.writes, *len as usize);
-                let r = hs.real.enter(|e| e.write_file(*fe, p, &data));
-                let fl = Flags {
-                    write: true,
-                    create: true,
-                    truncate: true,
-                    ..Default::default()
-                };
-                let old_len = hs
-                    .model
-                    .lookup(p)
-                    .filter(|i| !hs.model.is_dir(*i))
-                    .map(|i| hs.model.file(i).len() as u64)
-                    .unwrap_or(0);
-                let m = hs.model.open(p, fl).map(|o| {
-                    hs.model.pwrite(o.ino, 0, &data);
-                    self.last = Last {
-                        ino: Some(o.ino),
-                        created: o.created,
-                        old_len,
-                        new_len: data.len() as u64,
-                        ..Default::default()
-                    };
-                    Res::Unit
-                });
-                (r.map(|_| Res::Unit), m)
-            }
-            Op::Advance { ms } => {
-                hs.real.advance(Duration::from_millis(*ms as u64));
-                (Ok(Res::Unit), Ok(Res::Unit))
-            }
+            None => Vec::new(),
+        };
+        let real = exec_real(&mut hs.real, &mut hs.rh, &step.op, cur, &data);
+        let (model, last) = exec_model(&mut hs.model, &mut hs.mh, &step.op, cur, &data);
+        self.last = last;
+        if let Op::Open { slot, .. } = &step.op {
+            reconcile_open(&mut hs.real, &mut hs.rh, &mut hs.mh, *slot);
         }
+        // directory entries that are tainted themselves are not compared
+        let filt = |r: Res, hs: &HostState| match r {
+            Res::Names(v) if matches!(step.op, Op::ReadDir { .. }) => {
+                Res::Names(v.into_iter().filter(|q| !hs.self_tainted(q)).collect())
+            }
+            other => other,
+        };
+        (real.map(|r| filt(r, hs)), model.map(|r| filt(r, hs)))
     }
 
     /// After a compared (or tainted) op: update history facts, apply taints
@@ -1534,7 +1021,7 @@ impl<'a> Run<'a> {
                 self.note_mutation(h, ino);
             }
             Op::SyncAll { .. } | Op::SyncData { .. } => {
-                let ino = self.hosts[h].handles[cur].as_ref().unwrap().1.ino;
+                let ino = self.hosts[h].mh[cur].as_ref().unwrap().ino;
                 self.note_sync(h, ino);
                 self.on_file_synced(h, ino);
                 self.out.label("has-file-sync");
@@ -1889,23 +1376,8 @@ fn trace_on() -> bool {
     *ON.get_or_init(|| std::env::var("C10_TRACE").is_ok())
 }
 
-/// Human-readable op with concrete paths.
-fn describe(op: &Op) -> String {
-    let mut t = format!("{op:?}");
-    for (i, p) in PATHS.iter().enumerate().rev() {
-        for key in ["path", "from", "to"] {
-            t = t.replace(&format!("{key}: {i},"), &format!("{key}: {p:?},"));
-        }
-    }
-    t
-}
-
 fn clone_err(e: &io::Error) -> io::Error {
     io::Error::new(e.kind(), e.to_string())
-}
-
-fn pth(i: u8) -> &'static str {
-    PATHS[(i as usize) % PATHS.len()]
 }
 
 fn seen_kind(s: &Seen) -> &'static str {
@@ -1996,7 +1468,7 @@ fn run_on(sc: &Scenario, hosts: Vec<HostState>) -> Outcome {
     // close everything while entered
     for hs in r.hosts.iter_mut() {
         let hs: &mut HostState = hs;
-        let handles: Vec<Handle> = hs.handles.iter_mut().filter_map(|s| s.take()).map(|(rh, _)| rh).collect();
+        let handles: Vec<Handle> = hs.rh.iter_mut().filter_map(|s| s.take()).collect();
         hs.real.enter(|e| {
             for rh in handles {
                 e.close(rh);
@@ -2028,116 +1500,6 @@ fn run_on(sc: &Scenario, hosts: Vec<HostState>) -> Outcome {
 
 // ---------------------------------------------------------------------------
 // generator
-
-fn fe_strategy() -> impl Strategy<Value = Fe> {
-    prop_oneof![5 => Just(Fe::Std), 3 => Just(Fe::Tokio), 3 => Just(Fe::Uring)]
-}
-
-const SEL_FILE: u8 = 0;
-const SEL_DIR: u8 = 1;
-const SEL_FREE: u8 = 2;
-/// state-relative selector: k-th existing file / dir / free name
-fn sel(kind: u8) -> impl Strategy<Value = u8> {
-    (0u8..8).prop_map(move |i| 13 + i * 3 + kind)
-}
-/// paths for file ops
-fn file_path() -> impl Strategy<Value = u8> {
-    prop_oneof![
-        8 => sel(SEL_FILE),
-        4 => sel(SEL_FREE),
-        3 => (0u16..u16::MAX).prop_map(|i| [4u8, 5, 6, 7, 8, 9, 10, 11][pick(i, 8)]),
-        1 => 0u8..13,
-    ]
-}
-fn rename_target() -> impl Strategy<Value = u8> {
-    prop_oneof![
-        6 => sel(SEL_FREE),
-        3 => sel(SEL_FILE),
-        3 => (0u16..u16::MAX).prop_map(|i| [4u8, 5, 6, 7, 8, 9, 10, 11][pick(i, 8)]),
-        1 => 0u8..13,
-    ]
-}
-/// existing file most of the time
-fn existing_file() -> impl Strategy<Value = u8> {
-    prop_oneof![
-        10 => sel(SEL_FILE),
-        2 => (0u16..u16::MAX).prop_map(|i| [4u8, 5, 6, 7, 8, 9, 10, 11][pick(i, 8)]),
-        1 => 0u8..13,
-    ]
-}
-/// paths that are usually directories
-fn dir_path() -> impl Strategy<Value = u8> {
-    prop_oneof![
-        6 => sel(SEL_DIR),
-        2 => Just(0u8),
-        3 => (0u16..u16::MAX).prop_map(|i| [1u8, 2, 3, 12][pick(i, 4)]),
-        1 => 0u8..13,
-    ]
-}
-fn new_dir_path() -> impl Strategy<Value = u8> {
-    prop_oneof![
-        6 => (0u16..u16::MAX).prop_map(|i| [1u8, 2, 3, 12][pick(i, 4)]),
-        2 => sel(SEL_FREE),
-        1 => 0u8..13,
-    ]
-}
-fn any_path() -> impl Strategy<Value = u8> {
-    prop_oneof![2 => 0u8..13, 1 => sel(SEL_FILE), 1 => sel(SEL_DIR)]
-}
-
-fn flags_strategy() -> impl Strategy<Value = OpenFlags> {
-    prop_oneof![
-        // common, valid shapes
-        6 => Just(OpenFlags { read: true, write: true, create: true, ..Default::default() }),
-        2 => Just(OpenFlags { write: true, create: true, truncate: true, ..Default::default() }),
-        2 => Just(OpenFlags { read: true, ..Default::default() }),
-        2 => Just(OpenFlags { read: true, write: true, ..Default::default() }),
-        2 => Just(OpenFlags { read: true, append: true, create: true, ..Default::default() }),
-        1 => Just(OpenFlags { read: true, write: true, create_new: true, ..Default::default() }),
-        1 => Just(OpenFlags { read: true, write: true, truncate: true, ..Default::default() }),
-        // every combination
-        4 => (any::<bool>(), any::<bool>(), any::<bool>(), any::<bool>(), any::<bool>(), any::<bool>())
-            .prop_map(|(read, write, append, truncate, create, create_new)| OpenFlags { read, write, append, truncate, create, create_new }),
-    ]
-}
-
-fn op_strategy() -> impl Strategy<Value = Op> {
-    let slot = 0u8..NSLOTS as u8;
-    let small = 0u8..12;
-    let len = prop_oneof![1 => Just(0u8), 10 => 1u8..9];
-    prop_oneof![
-        18 => (slot.clone(), file_path(), fe_strategy(), flags_strategy()).prop_map(|(slot, path, fe, fl)| Op::Open { slot, path, fe, fl }),
-        1 => slot.clone().prop_map(|slot| Op::Close { slot }),
-        12 => (slot.clone(), small.clone(), len.clone(), fe_strategy()).prop_map(|(slot, off, len, fe)| Op::WriteAt { slot, off, len, fe }),
-        6 => (slot.clone(), small.clone(), 0u8..16, fe_strategy()).prop_map(|(slot, off, len, fe)| Op::ReadAt { slot, off, len, fe }),
-        6 => (slot.clone(), len.clone(), fe_strategy()).prop_map(|(slot, len, fe)| Op::Write { slot, len, fe }),
-        4 => (slot.clone(), 0u8..16, fe_strategy()).prop_map(|(slot, len, fe)| Op::Read { slot, len, fe }),
-        3 => (slot.clone(), prop_oneof![Just(Whence::Start), Just(Whence::Cur), Just(Whence::End)], -6i8..10, fe_strategy())
-            .prop_map(|(slot, whence, off, fe)| Op::Seek { slot, whence, off, fe }),
-        6 => (slot.clone(), 0u8..14, fe_strategy()).prop_map(|(slot, len, fe)| Op::SetLen { slot, len, fe }),
-        1 => (slot.clone(), fe_strategy()).prop_map(|(slot, fe)| Op::HandleLen { slot, fe }),
-        7 => (slot.clone(), fe_strategy()).prop_map(|(slot, fe)| Op::SyncAll { slot, fe }),
-        3 => (slot.clone(), fe_strategy()).prop_map(|(slot, fe)| Op::SyncData { slot, fe }),
-        8 => (dir_path(), fe_strategy()).prop_map(|(path, fe)| Op::SyncDir { path, fe }),
-        10 => (existing_file(), rename_target(), fe_strategy()).prop_map(|(from, to, fe)| Op::Rename { from, to, fe }),
-        2 => (any_path(), any_path(), fe_strategy()).prop_map(|(from, to, fe)| Op::Rename { from, to, fe }),
-        5 => (existing_file(), fe_strategy()).prop_map(|(path, fe)| Op::RemoveFile { path, fe }),
-        3 => (new_dir_path(), fe_strategy()).prop_map(|(path, fe)| Op::CreateDir { path, fe }),
-        2 => (new_dir_path(), fe_strategy()).prop_map(|(path, fe)| Op::CreateDirAll { path, fe }),
-        2 => (dir_path(), fe_strategy()).prop_map(|(path, fe)| Op::RemoveDir { path, fe }),
-        1 => (dir_path(), fe_strategy()).prop_map(|(path, fe)| Op::RemoveDirAll { path, fe }),
-        2 => (dir_path(), fe_strategy()).prop_map(|(path, fe)| Op::ReadDir { path, fe }),
-        2 => (any_path(), fe_strategy()).prop_map(|(path, fe)| Op::Metadata { path, fe }),
-        1 => (any_path(), fe_strategy()).prop_map(|(path, fe)| Op::Exists { path, fe }),
-        2 => (existing_file(), fe_strategy()).prop_map(|(path, fe)| Op::ReadFile { path, fe }),
-        4 => (file_path(), len, fe_strategy()).prop_map(|(path, len, fe)| Op::WriteFile { path, len, fe }),
-        2 => (0u16..5000).prop_map(|ms| Op::Advance { ms }),
-    ]
-}
-
-fn step_strategy() -> impl Strategy<Value = Step> {
-    (prop_oneof![4 => Just(0u8), 1 => Just(1u8)], op_strategy()).prop_map(|(host, op)| Step { host, op })
-}
 
 /// Histories start with a short prologue that builds the directory skeleton
 /// on most cases (otherwise most ops die with NotFound).
@@ -2293,7 +1655,7 @@ pub fn probes() -> Vec<Scenario> {
             vec![Op::CreateDir { path: 1, fe: s }, Op::Rename { from: 1, to: 12, fe: s }],
         ),
         mk(
-            "F-C10-4-rename-directory-into-itself",
+            "F-C10-14-rename-directory-into-itself",
             vec![
                 Op::CreateDirAll { path: 3, fe: s },
                 Op::SyncDir { path: 0, fe: s },
@@ -2577,7 +1939,7 @@ fn check(tier: Tier, seed: u64) -> i32 {
             "read-only open of a directory, write_at on an append-mode handle, rename/remove of / are not generated (platform-dependent)",
             "error kinds are compared where std's errno mapping is unambiguous (NotFound, AlreadyExists, NotADirectory, IsADirectory, DirectoryNotEmpty, InvalidInput); EBADF/EPERM-like situations only require Ok/Err agreement",
             "timestamps, permission bits, symlinks, hard links are outside the property",
-            "objects touched by known findings F-C10-1..13 are avoided or tainted (counted in excluded_by_known_finding); directory renames are not executed at all in the random tier (F-C10-4)",
+            "objects touched by findings F-C10-1..14 are avoided or tainted only while the finding has status \"known\" in known_findings.json (counted in excluded_by_known_finding); while F-C10-4 is known, directory renames other than into the own subtree are not executed in the random tier",
             "the two hosts are two Fs + IoUringHostState instances driven directly (FsDirect), not hosts of a turmoil::Sim",
         ],
     )
